@@ -3,3 +3,4 @@ import CC.Thm.C14
 #print axioms CC.Thm.C14.refill_counter
 #print axioms CC.Thm.C14.refill4_counter
 #print axioms CC.Thm.C14.refill_block
+#print axioms CC.Thm.C14.source_code_match
